@@ -235,7 +235,7 @@ pub fn def(tier: Tier) -> PropertyDef {
 		checks.push(pt(&format!("indicator_{name}"), tier.pick(2500, 10000), strat, run_indicator));
 		// long one-sided trends with a zig-zag
 		let strat = (cfggen::config_strategy(name, opts), gen::trend_candle_stream(tier.pick(2500, 12000))).prop_map(|(cfg, s)| RCase { cfg, s });
-		checks.push(pt(&format!("trend_{name}"), tier.pick(60, 300), strat, run_indicator));
+		checks.push(pt(&format!("trend_{name}"), tier.pick(60, 1000), strat, run_indicator));
 	}
 	checks.push(pt("methods", tier.pick(20000, 100000), gen::val_stream(2, max_len, Domain::Any, false), run_methods));
 	checks.push(pt("candle_helpers", tier.pick(6000, 60000), prop_oneof![gen::candle_stream(2, 300), gen::regime_candle_stream_n(10, 300)], run_candle_helpers));
